@@ -11,7 +11,7 @@ from pyvc.values import BoundMethod, Closure, ExcV, Opaque, Opt, Ref
 
 from .a_common import is_none
 from .a_submit import UT
-from .a_tasks import calls, exts, flat, index_of, trivial_loop
+from .a_tasks import calls, exts, flat, index_of, trivial_loop, only_propagates
 from .spec import b2z, implies
 
 B = z3.BoolVal
@@ -79,7 +79,7 @@ def register(R):
                            on_done_after_calls=ExtT('after_list')),
                param_alternatives={'request_type': [('get_object', Const('get_object')), ('put_object', Const('put_object')),
                                                     ('delete_object', Const('delete_object'))]},
-               checks=gmra_checks, returns=ExtT('crt_callargs'), raises={'Exception': lambda c: {}}, raise_when={'Exception': lambda c: None})
+               checks=gmra_checks, returns=ExtT('crt_callargs'), raises={'Exception': only_propagates}, raise_when={'Exception': lambda c: None})
 
     # ------------------------------------------------------------------ _submit_transfer
     def ev_names(tr):
@@ -206,7 +206,7 @@ def register(R):
                params=dict(request_type=Str, call_args=ObjT('s3transfer.utils:CallArgs'), coordinator=ExtT('crt_coordinator'), future=Any,
                            on_done_before_calls=Const(lambda eng, st: st.alloc(HObj('list', items=[]))),
                            on_done_after_calls=ExtT('after_list')),
-               checks=goa_checks, raises={'Exception': lambda c: {}})
+               checks=goa_checks, raises={'Exception': only_propagates})
 
     # ------------------------------------------------------------------ handlers
     R.add_fields(RTH, _coordinator=ExtT('crt_coordinator'), _final_filename=ExtT('fileobj_or_name'), _temp_filename=ExtT('str'),
